@@ -99,6 +99,13 @@ def graph_case(draw, max_tasks=8, min_tasks=1, kinds=("cmd", "exp", "group", "co
                 oc[str(i)] = {"signal": [1, 2, 9, 15, 11][i % 5] + 0, "sigidx": i}
             else:
                 oc[str(i)] = {"launch": draw(st.sampled_from(["eagain", "enoent"]))}
+    if outcomes != "none":
+        # a combine step can fail too: a regular file planted where one of its links must go
+        for i, t in enumerate(tasks):
+            if t["kind"] == "combine" and draw(st.sampled_from(range(5))) == 0:
+                cands = [d[0] for d in t["deps"] if tasks[d[0]]["kind"] in PROC_KINDS]
+                if cands:
+                    oc[str(i)] = {"conflict": draw(st.sampled_from(cands))}
     case["outcomes"] = oc
     tlen = draw(st.sampled_from([0, 4, 10, 20, 40, tape_max]))
     tlen = min(tlen, tape_max)
@@ -174,6 +181,18 @@ def kernel_spec(case, clock=1000.0):
     }
 
 
+def plant_conflicts(root, case):
+    ids = projgen.idents(case)
+    for i, o in case.get("outcomes", {}).items():
+        if "conflict" in o:
+            d = projgen.version_dir(root, ids[int(i)])
+            os.makedirs(d, exist_ok=True)
+            p = os.path.join(d, case["tasks"][o["conflict"]]["name"])
+            if not os.path.lexists(p):
+                with open(p, "w") as f:
+                    f.write("a user's file where the link should go")
+
+
 def seed_case(root, case):
     ids = projgen.idents(case)
     rows = []
@@ -200,6 +219,7 @@ def run_graph_case(case, inject=None, clock=1000.0, keep_root=False, env=None):
     try:
         projgen.write_project(root, case)
         rows_before = seed_case(root, case)
+        plant_conflicts(root, case)
         res = run_cond(root, argv_for(case), kspec=kernel_spec(case, clock), inject=inject, env=env)
         res["rows_before"] = rows_before
         res["rows_after"] = projgen.read_rows(root)
